@@ -558,6 +558,16 @@ def shapes_bounded_instance():
                     res['w'] = bf.get_wmwf_vector(Px, Pn, distortion_weight=mu)
                 return res
             res.update(a=a, Px=Px, ref=ref)
+            if K is not None:
+                # a leading source axis (..., bins, sensors, sensors): K independent problems, each with its own noise matrix
+                aK = rng.normal(size=(K, F, D)) + 1j * rng.normal(size=(K, F, D))
+                PxK = rng.uniform(0.5, 2.0, size=(K, F, 1, 1)) * aK[..., :, None] * np.conj(aK[..., None, :])
+                PnK = np.stack([hpd(rng, F, D, inp['cond']) for _ in range(K)])
+                res.update(aK=aK, PxK=PxK, PnK=PnK)
+                if fn == 'souden':
+                    res['wK'] = bf.get_mvdr_vector_souden(PxK, PnK, ref_channel=ref)
+                else:
+                    res['wK'] = bf.get_wmwf_vector(PxK, PnK, reference_channel=ref, distortion_weight=inp['mu'])
             if fn == 'souden':
                 res['w'] = bf.get_mvdr_vector_souden(Px, Pn, ref_channel=ref)
             else:
@@ -637,6 +647,19 @@ def shapes_bounded_instance():
                 if fn == 'souden':
                     ok &= bool(abs(np.conj(w[f]) @ a[f] - a[f][refc]) < 1e-6 * max(1.0, abs(a[f][refc])))      # w^H a = a_ref
             yield 'equals-per-bin-closed-form[%s]' % fn, ok
+            if 'wK' in out:
+                wK, PxK, PnK, aK = np.asarray(out['wK']), out['PxK'], out['PnK'], out['aK']
+                yield 'shape[leading-source-axis]', bool(wK.shape == aK.shape)
+                if wK.shape != aK.shape:
+                    return
+                ok = True
+                mu_ = out.get('mu', 0.0)
+                for k in range(aK.shape[0]):
+                    for f in range(F):
+                        M = np.linalg.solve(PnK[k, f], PxK[k, f])
+                        refv = M[:, refc] / (np.trace(M) + (0.0 if fn == 'souden' else mu_))
+                        ok &= bool(np.allclose(wK[k, f], refv, rtol=1e-5, atol=1e-8))
+                yield 'equals-per-bin-closed-form[%s,leading-source-axis]' % fn, ok
 
     return Instance('C11', BF + 'get_*_vector', 'bounded-all-shapes-against-per-bin-linear-algebra', make, call, ensures, mode='bounded',
                     bounded_n=150, frame=False)
